@@ -392,6 +392,7 @@ func addTime(T map[string]intrinsic) {
 			if t.civ == nil {
 				panic(unsupported("calendar accessor " + n + " on flat time"))
 			}
+			m.noteCivil(t)
 			return done(m.civilField(t, n))
 		}
 	}
@@ -416,4 +417,16 @@ func addTime(T map[string]intrinsic) {
 	T["time.Date"] = func(m *Machine, th *Thread, fr *Frame, f FuncV, a []Value) (Value, invStatus) {
 		return done(m.civilDate(a))
 	}
+}
+
+func (m *Machine) noteCivil(t TimeV) {
+	if t.civ == nil {
+		return
+	}
+	for _, c := range m.civSeen {
+		if c == t.civ {
+			return
+		}
+	}
+	m.civSeen = append(m.civSeen, t.civ)
 }
